@@ -499,14 +499,12 @@ impl ser::SerializeSeq for SeqSerializer<'_> {
 }
 
 fn list_size(len: usize, is_array_element: &IsArrayElement) -> Result<usize, usize> {
+    // Inside an array every element uses the 32-bit form (one constructor for all of them)
+    let in_array = !matches!(is_array_element, IsArrayElement::False);
     match len {
-        0 => Ok(1),
-        1..=U8_MAX_MINUS_1 => match is_array_element {
-            IsArrayElement::False => Ok(1 + 2 + len),
-            IsArrayElement::FirstElement => Ok(1 + 2 + len),
-            IsArrayElement::OtherElement => Ok(2 + len),
-        },
-        U8_MAX..=U32_MAX_MINUS_4 => match is_array_element {
+        0 if !in_array => Ok(1),
+        1..=U8_MAX_MINUS_1 if !in_array => Ok(1 + 2 + len),
+        0..=U32_MAX_MINUS_4 => match is_array_element {
             IsArrayElement::False => Ok(1 + 4 + 4 + len),
             IsArrayElement::FirstElement => Ok(1 + 4 + 4 + len),
             IsArrayElement::OtherElement => Ok(4 + 4 + len),
@@ -516,13 +514,11 @@ fn list_size(len: usize, is_array_element: &IsArrayElement) -> Result<usize, usi
 }
 
 fn array_size(len: usize, is_array_element: &IsArrayElement) -> Result<usize, usize> {
+    // Inside an array every element uses the 32-bit form (one constructor for all of them)
+    let in_array = !matches!(is_array_element, IsArrayElement::False);
     let out = match len {
-        0..=U8_MAX_MINUS_1 => match is_array_element {
-            IsArrayElement::False => 1 + 2 + len,
-            IsArrayElement::FirstElement => 1 + 2 + len,
-            IsArrayElement::OtherElement => 2 + len,
-        },
-        U8_MAX..=U32_MAX_MINUS_4 => match is_array_element {
+        0..=U8_MAX_MINUS_1 if !in_array => 1 + 2 + len,
+        0..=U32_MAX_MINUS_4 => match is_array_element {
             IsArrayElement::False => 1 + 4 + 4 + len,
             IsArrayElement::FirstElement => 1 + 4 + 4 + len,
             IsArrayElement::OtherElement => 4 + 4 + len,
@@ -626,13 +622,11 @@ impl ser::SerializeMap for MapSerializer<'_> {
 }
 
 fn map_size(len: usize, is_array_element: &IsArrayElement) -> Result<usize, usize> {
+    // Inside an array every element uses the 32-bit form (one constructor for all of them)
+    let in_array = !matches!(is_array_element, IsArrayElement::False);
     match len {
-        0..=U8_MAX_MINUS_1 => match is_array_element {
-            IsArrayElement::False => Ok(1 + 2 + len),
-            IsArrayElement::FirstElement => Ok(1 + 2 + len),
-            IsArrayElement::OtherElement => Ok(2 + len),
-        },
-        U8_MAX..=U32_MAX_MINUS_4 => match is_array_element {
+        0..=U8_MAX_MINUS_1 if !in_array => Ok(1 + 2 + len),
+        0..=U32_MAX_MINUS_4 => match is_array_element {
             IsArrayElement::False => Ok(1 + 4 + 4 + len),
             IsArrayElement::FirstElement => Ok(1 + 4 + 4 + len),
             IsArrayElement::OtherElement => Ok(4 + 4 + len),
